@@ -515,7 +515,9 @@ func (c *FnCtx) prescanTracked(fn *ssa.Function, spec *FuncSpec, depth int, seen
 				ats = append(ats, cc.Value.Type())
 			} else if callee := cc.StaticCallee(); callee != nil {
 				name = callee.Name()
-				if c.eng.specOf(callee) == nil && c.eng.inlinable(callee) {
+				if c.eng.inlinable(callee) || c.eng.specOf(callee) != nil {
+					// (contracted callees too: their postconditions may speak about their own calls of a tracked callee, and the
+					// call-log components need their types at the call site)
 					c.prescanTracked(callee, spec, depth+1, seen)
 				}
 			}
@@ -523,7 +525,13 @@ func (c *FnCtx) prescanTracked(fn *ssa.Function, spec *FuncSpec, depth int, seen
 				continue
 			}
 			if _, seen := c.trackResT[name]; !seen {
-				c.trackResT[name] = cc.Signature().Results()
+				rs := cc.Signature().Results()
+				c.trackResT[name] = rs
+				for k := 0; k < rs.Len(); k++ {
+					comp := fmt.Sprintf("ghost$res$%s$%d", name, k)
+					c.comp(comp, c.ty.SortOf(rs.At(k).Type()), rs.At(k).Type())
+					c.trackArgT[comp] = rs.At(k).Type()
+				}
 			}
 			for _, a := range cc.Args {
 				ats = append(ats, a.Type())
